@@ -33,7 +33,7 @@ G1 = [("RX", 1), ("RY", 1), ("RZ", 1), ("PhaseShift", 1), ("Rot", 3), ("U1", 1),
       ("PauliY", 0), ("PauliZ", 0), ("S", 0), ("T", 0), ("SX", 0), ("Identity", 0)]
 G2 = [("CNOT", 0), ("CZ", 0), ("CY", 0), ("CH", 0), ("SWAP", 0), ("ISWAP", 0), ("SISWAP", 0), ("ECR", 0), ("CRX", 1), ("CRY", 1), ("CRZ", 1),
       ("CRot", 3), ("ControlledPhaseShift", 1), ("IsingXX", 1), ("IsingYY", 1), ("IsingZZ", 1), ("IsingXY", 1), ("PSWAP", 1),
-      ("SingleExcitation", 1), ("MultiRZ", 1)]
+      ("SingleExcitation", 1), ("MultiRZ", 1), ("FermionicSWAP", 1), ("SingleExcitationPlus", 1), ("SingleExcitationMinus", 1), ("CPhaseShift10", 1)]
 G3 = [("Toffoli", 0), ("CSWAP", 0), ("CCZ", 0), ("MultiRZ", 1)]
 LABELS = [[0, 1, 2], ["a", "b", "c"], [2, 0, 1], ["q", 7, "z"]]
 
@@ -50,7 +50,7 @@ def sym(rng, L, depth=0):
     if r < 0.3:
         return {"t": "adj", "b": base_op(rng, L, depth + 1)}
     if r < 0.6:
-        return {"t": "pow", "z": rng.choice([2, 3, -1, -2, 0, 1, 4]), "b": base_op(rng, L, depth + 1)}
+        return {"t": "pow", "z": rng.choice([2, 3, -1, -2, 0, 1, 4, 0.5, 1.5, -0.5]), "b": base_op(rng, L, depth + 1)}
     b = base_op(rng, L[:-1] if len(L) > 1 else L, depth + 1, kmax=max(1, len(L) - 1))
     used = wires_of(b)
     free = [w for w in L if w not in used]
@@ -192,6 +192,15 @@ CORPUS = [
     # found by this generator: Pow(Identity, 0) with the graph enabled crashes while the graph is built
     {"ops": [{"t": "pow", "z": 0, "b": {"t": "g", "n": "Identity", "p": [], "w": [0]}}, {"t": "g", "n": "Hadamard", "p": [], "w": [0]}], "graph": True,
      "gate_set": {"kind": "named", "name": "ROTATIONS_PLUS_CNOT"}, "nww": 0, "strict": True, "mode": "transform", "cols": [0, 1]},
+    # symbolic operators over LEGACY (resource-rep based) bases: fractional powers and controls of adjoints with zero-valued controls
+    {"ops": [{"t": "pow", "z": 0.5, "b": {"t": "g", "n": "FermionicSWAP", "p": [2 * math.atan2(4, 3)], "w": [0, 1]}}], "graph": True,
+     "gate_set": {"kind": "named", "name": "ROTATIONS_PLUS_CNOT"}, "nww": 0, "strict": False, "mode": "transform", "cols": [0, 1, 2, 3]},
+    {"ops": [{"t": "pow", "z": 1.5, "b": {"t": "g", "n": "SingleExcitationPlus", "p": [2 * math.atan2(3, 4)], "w": [1, 0]}}], "graph": True,
+     "gate_set": {"kind": "named", "name": "ROTATIONS_PLUS_CNOT"}, "nww": 0, "strict": False, "mode": "transform", "cols": [0, 1, 2, 3]},
+    {"ops": [{"t": "ctrl", "b": {"t": "adj", "b": {"t": "g", "n": "PSWAP", "p": [2 * math.atan2(3, 4)], "w": [0, 1]}}, "c": [2], "cv": [0]}], "graph": True,
+     "gate_set": {"kind": "named", "name": "ROTATIONS_PLUS_CNOT"}, "nww": 0, "strict": False, "mode": "transform", "cols": [0, 2, 4, 6]},
+    {"ops": [{"t": "ctrl", "b": {"t": "adj", "b": {"t": "g", "n": "FermionicSWAP", "p": [2 * math.atan2(5, 12)], "w": [2, 1]}}, "c": [0], "cv": [0]}], "graph": True,
+     "gate_set": {"kind": "named", "name": "ROTATIONS_PLUS_CNOT"}, "nww": 0, "strict": False, "mode": "transform", "cols": [0, 1, 2, 3]},
     # docstring examples
     {"ops": [{"t": "g", "n": "IsingXX", "p": [2 * math.atan2(3, 4)], "w": [0, 1]}], "graph": False, "gate_set": {"kind": "names", "names": ["CNOT", "RX"]},
      "nww": 0, "strict": True, "mode": "transform", "cols": [0, 1, 2, 3]},
